@@ -12,7 +12,7 @@
 (***************************************************************************)
 EXTENDS SeedMC
 
-CONSTANTS SeqLen
+CONSTANTS SeqLen, LongLen      \* LongLen: length of the extra sequences over CoreEvents (0 = none)
 
 NX == <<120>>
 NY == <<121>>
@@ -40,6 +40,9 @@ EvStmts(ev, pos) ==
 
 RECURSIVE Seqs(_)
 Seqs(n) == IF n = 0 THEN {<<>>} ELSE {<<e>> \o s : e \in Events, s \in Seqs(n - 1)}
+CoreEvents == {11, 21, 31, 41, 51, 61, 71, 13, 43, 73, 12}
+RECURSIVE CoreSeqs(_)
+CoreSeqs(n) == IF n = 0 THEN {<<>>} ELSE {<<e>> \o s : e \in CoreEvents, s \in CoreSeqs(n - 1)}
 
 Flat(evs, from) == Concat([i \in 1 .. Len(evs) |-> EvStmts(evs[i], from + i)])
 Wrappers == {"block", "call", "for", "if", "while"}
@@ -74,6 +77,7 @@ BadProg(i, pos) ==
 \* parameter tuples <<family, events, split, wrapper>>
 C20Params ==
     { <<"flat", s, 0, "-">> : s \in UNION {Seqs(n) : n \in 1 .. SeqLen} }
+    \cup (IF LongLen > 0 THEN { <<"flat", s, 0, "-">> : s \in CoreSeqs(LongLen) } ELSE {})
     \cup { <<"nest", s, 1, w>> : s \in UNION {Seqs(n) : n \in 2 .. (SeqLen - 1)}, w \in Wrappers }
     \cup { <<"bad", <<i>>, 0, pos>> : i \in 1 .. 9, pos \in BadPos }
 
